@@ -60,7 +60,7 @@ def main():
                 row.update(ok=False, status="mismatch", why="built by %s with operator.%s (the table says %s with operator.%s)" % (
                     tmpls[0], ops[0].__name__, tmpl, fn.__name__))
         out.append(row)
-    json.dump(out, sys.stdout)
+    json.dump(out, sys.stdout, default=str)
 
 
 if __name__ == "__main__":
